@@ -202,9 +202,33 @@ def _unresolved(shape, edges, cyc):
     return True
 
 
+def _real_unresolved_walk(shape, edges, walk):
+    """the named cycle is real and unresolved by the property's rule: a closed walk (a simulator may occur twice) each hop of
+    which is a connection that does not resolve THIS walk: not time-shifted, and weak only if the walk leaves the group
+    shared by the connection's two ends"""
+    if len(walk) < 2 or walk[0] != walk[-1]:
+        return False
+    nodes = set(walk)
+    for a, b in zip(walk, walk[1:]):
+        ok = False
+        for (x, y, kind) in edges:
+            if (x, y) != (a, b):
+                continue
+            if kind == "plain":
+                ok = True
+            elif kind == "weak":
+                g = shape[a]
+                inside = g != 0 and shape[b] == g and all(shape[n] == g for n in nodes)
+                ok = ok or not inside
+        if not ok:
+            return False
+    return True
+
+
 def bounded_cycle_detection(tier, seed):
     from mosaik.exceptions import ScenarioError
     failures = []
+    known = []
     cases = 0
     max_edges = 4 if tier == "thorough" else 3
     for sname, shape in CYCLE_SHAPES.items():
@@ -230,8 +254,12 @@ def bounded_cycle_detection(tier, seed):
                     except ScenarioError as e:
                         raised = str(e)
                     except AssertionError as e:
-                        # incomparable delays (recorded finding F6) cannot occur in these shapes: report
                         raised = None
+                        if "are incomparable" in str(e):
+                            # the call site of recorded finding F6: TieredInterval.__lt__ on two path delays of one pair that
+                            # lie in K_mixed (possible from 4 connections on: one path leaves the group and re-enters it)
+                            known.append({"shape": sname, "edges": [list(x) for x in edges]})
+                            continue
                         failures.append({"desc": f"ensure_no_dataflow_cycles died with AssertionError({e}) for {sname} {edges}",
                                          "case": {"shape": sname, "edges": [list(x) for x in edges]}})
                         continue
@@ -242,17 +270,23 @@ def bounded_cycle_detection(tier, seed):
                                          "case": {"shape": sname, "edges": [list(x) for x in edges]}})
                     elif raised is not None:
                         # the cycle named in the error must be a real unresolved cycle
-                        named = [s.sid for s in sims if f"sid='{s.sid}'" in raised.split("example:")[-1]]
-                        ok = any(set(f"S{edges[k][0]}" for k in c) == set(named) for c in bad)
-                        if not ok:
-                            failures.append({"desc": f"{sname}, connections {edges}: the cycle named in the error ({named}) is not one of the "
-                                                     f"unresolved cycles {[[edges[k] for k in c] for c in bad]}",
+                        import re
+                        walk = [int(x) for x in re.findall(r"sid='S(\d+)'", raised.split("example:")[-1])]
+                        if not _real_unresolved_walk(shape, edges, walk):
+                            failures.append({"desc": f"{sname}, connections {edges}: the cycle named in the error ({['S%d' % i for i in walk]}) is not "
+                                                     f"a closed walk along connections none of which resolves it (simple unresolved cycles: "
+                                                     f"{[[edges[k] for k in c] for c in bad]})",
                                              "case": {"shape": sname, "edges": [list(x) for x in edges]}})
                 finally:
                     w.loop.close()
                 if len(failures) >= 5:
-                    return {"bound": _cbound(max_edges), "cases": cases, "failures": failures}
-    return {"bound": _cbound(max_edges), "cases": cases, "failures": failures}
+                    return {"bound": _cbound(max_edges), "cases": cases, "failures": failures, "known_instances": _known(known)}
+    return {"bound": _cbound(max_edges), "cases": cases, "failures": failures, "known_instances": _known(known)}
+
+
+def _known(known):
+    return {"finding": "F6", "count": len(known), "first": known[:2],
+            "classifier": "AssertionError '... are incomparable' raised by TieredInterval.__lt__ inside the closure"}
 
 
 def _cbound(max_edges):
